@@ -26,6 +26,40 @@ LOOP_SRC = "direct/nn/mri_models.py"
 PURE_TARGETS = {"filename", "scaling_factors", "resolution", "iteration_output", "output", "loss_dict", "output_abs", "target_abs"}
 
 
+STATE_VARS = ("curr_volume", "curr_target", "slice_counter", "volume_size", "last_filename")
+
+
+def _yields_volume(v):
+    """(curr_volume, [curr_target,] <loss dict>, filename), or that choice written as `A if add_target else B`"""
+    import ast
+
+    if isinstance(v, ast.IfExp):
+        return ast.unparse(v.test) == "add_target" and _yields_volume(v.body) and _yields_volume(v.orelse)
+    if not isinstance(v, ast.Tuple) or len(v.elts) not in (3, 4):
+        return False
+    names = [ast.unparse(e) for e in v.elts]
+    if names[0] != "curr_volume" or names[-1] != "filename" or (len(names) == 4 and names[1] != "curr_target"):
+        return False
+    mid = v.elts[-2]
+    return not any(isinstance(n, ast.Name) and n.id in STATE_VARS for n in ast.walk(mid))
+
+
+def _same_call(a, b):
+    """two calls equal up to `f(*(x, *y))` versus `f(x, *y)`"""
+    import ast
+
+    def flat(c):
+        out = []
+        for x in c.args:
+            if isinstance(x, ast.Starred) and isinstance(x.value, ast.Tuple):
+                out.extend(ast.unparse(e) for e in x.value.elts)
+            else:
+                out.append(ast.unparse(x))
+        return ast.unparse(c.func), out, sorted((k.arg, ast.unparse(k.value)) for k in c.keywords)
+
+    return isinstance(a, ast.Call) and isinstance(b, ast.Call) and flat(a) == flat(b)
+
+
 def _loop_stmt(s, path):
     import ast
 
@@ -42,8 +76,7 @@ def _loop_stmt(s, path):
             return []
         fail("call outside subset")
     if isinstance(s, ast.Expr) and isinstance(s.value, ast.Yield):
-        y = ast.unparse(s.value.value)
-        if not y.startswith("(curr_volume, curr_target, reduce_list_of_dicts(loss_dict_list), filename) if add_target else (curr_volume, reduce_list_of_dicts(loss_dict_list), filename)"):
+        if not _yields_volume(s.value.value):
             fail("yield of something else than the current volume and file name")
         return ["SYield"]
     if isinstance(s, ast.Delete):
@@ -59,9 +92,10 @@ def _loop_stmt(s, path):
     if isinstance(s, ast.Assign):
         t = ast.unparse(s.targets[0])
         v = ast.unparse(s.value)
-        if t in PURE_TARGETS:
+        if t in PURE_TARGETS or (isinstance(s.targets[0], ast.Name) and t not in STATE_VARS and t not in ("data", "data_loader", "loss_dict_list", "filenames_seen")):
+            # a local that is not part of the loop state (the batch output, a named intermediate): it must not read the state
             for n in ast.walk(s.value):
-                if isinstance(n, ast.Name) and n.id in ("curr_volume", "curr_target", "slice_counter", "volume_size", "last_filename"):
+                if isinstance(n, ast.Name) and n.id in STATE_VARS:
                     fail("batch output depends on the loop state")
             return []
         table = {("last_filename", "filename"): ["SSetLastFile"], ("curr_volume", "None"): ["SResetVolume"], ("curr_target", "None"): [], ("slice_counter", "0"): ["SResetCounter"],
@@ -72,7 +106,13 @@ def _loop_stmt(s, path):
                  ("curr_target[slice_counter:slice_counter + output_abs.shape[0], ...]", "target_abs.cpu()"): []}
         if (t, v) in table:
             return table[(t, v)]
+        if t == "curr_volume" and _same_call(s.value, ast.parse("torch.zeros(*(volume_size, *output_abs.shape[1:]), dtype=output_abs.dtype)", mode="eval").body):
+            return ["SAllocBuf"]
         fail("assignment outside subset")
+    if isinstance(s, ast.If) and ast.unparse(s.test) == "add_target" and len(s.body) == 1 and len(s.orelse) == 1 and all(isinstance(b, ast.Expr) and isinstance(b.value, ast.Yield) for b in (s.body[0], s.orelse[0])):
+        if _yields_volume(s.body[0].value.value) and _yields_volume(s.orelse[0].value.value) and len(s.body[0].value.value.elts) == 4 and len(s.orelse[0].value.value.elts) == 3:
+            return ["SYield"]
+        fail("yield of something else than the current volume and file name")
     if isinstance(s, ast.If) and not s.orelse:
         c = ast.unparse(s.test)
         conds = {"last_filename is None": "CLastIsNone", "last_filename != filename": "CLastNeqFile", "curr_volume is None": "CBufIsNone", "slice_counter == volume_size": "CCounterEqVsz"}
@@ -97,8 +137,9 @@ def generate(ctx):
     tree, _ = pg.parse_file(path)
     fn = pg.find_def(tree, "MRIModelEngine.reconstruct_volumes", path)
     loops = [n for n in pg.strip_doc(fn.body) if isinstance(n, ast.For)]
-    if len(loops) != 1 or ast.unparse(loops[0].iter) != "enumerate(data_loader)" or ast.unparse(loops[0].target) != "(_, data)":
-        raise Untranslatable("recon-loop: expected one loop over enumerate(data_loader)", fn.lineno, path)
+    hdr = (ast.unparse(loops[0].target), ast.unparse(loops[0].iter)) if len(loops) == 1 else None
+    if hdr not in (("(_, data)", "enumerate(data_loader)"), ("data", "data_loader")):
+        raise Untranslatable("recon-loop: expected one loop over (enumerate of) data_loader binding `data`", fn.lineno, path)
     # initial state
     pre = {ast.unparse(s.targets[0]): ast.unparse(s.value) for s in pg.strip_doc(fn.body) if isinstance(s, ast.Assign)}
     for k, v in (("last_filename", "None"), ("curr_volume", "None"), ("slice_counter", "0")):
